@@ -1,3 +1,6 @@
 import alloc_common, aligned_common
 A = alloc_common.pairs(); B = aligned_common.pairs()
 PAIRS = [A[k] for k in ("realloc_zero", "recalloc", "fwd_rezalloc")] + [v for k, v in B.items() if k.startswith("realloc_aligned_") or k.startswith("overalloc_")]
+# the allocation path itself: zeroing by the page allocator, and for huge pages over the whole usable block afterwards
+import page_common
+PAIRS += [page_common.pairs()["page_malloc"]] + page_common.malloc_generic_pairs()
